@@ -7,8 +7,15 @@ import PsV.Props.C01
 # C17 — grid evaluation is the tensor-product B-spline sum, computed by mode products
 
 Property theorems only (helper lemmas and the predicates `IdxIn`, `NdSparse.WF`, `GridTableWF`
-live in `PsV/Proofs/Glam.lean`).  The carrier is any ordered field whose `Arith` bundle is lawful;
+live in `PsV/Proofs/Glam.lean`; continuity at knots / `AgreeAt` in `Proofs/GlamCont.lean`; the C-typed index
+arithmetic in `Model/GlamIdx.lean` + `Proofs/GlamIdx.lean`; flat sum and listed pattern in `Proofs/GlamFlat.lean`,
+`Proofs/GlamListed.lean`).  The carrier is any ordered field whose `Arith` bundle is lawful;
 `Rat` with the instance the compiled driver executes is one.
+
+Sections: 1 index bijection · 2 mode product · 3 grideval = tensor-product sum · 4/5 link to the pointwise
+convention (partial / full with the precise side condition, necessity, witnesses, link to C01's finding) ·
+6 no overflow of the `int` index arithmetic below 2³¹ columns · 7 flat n-d sum and the listed pattern ·
+8 agreement with the pointwise evaluation routine `ndsplineeval` at model level.
 -/
 namespace PsV
 open Arith
@@ -83,7 +90,9 @@ theorem grideval_wrong_arity (dims : List (Dim α)) (coef : Int → α) (coords 
     (h : coords.length ≠ dims.length) : gridEval dims coef coords = none := by
   unfold gridEval; rw [if_pos h]
 
-/-! ## 4. grid convention vs. pointwise convention -/
+/-! ## 4. grid convention vs. pointwise convention (first, partial version — kept; superseded by section 5,
+where `grideval_eq_pointwise` / `grideval_get_eq_pointwise` prove the statement under the precise side
+condition `AgreeAt`, of which `RightContAt` is a special case: `rightContAt_agreeAt`) -/
 
 /-- The grid sum is the pointwise specification `specEval` (value mode in every dimension) whenever
 every coordinate is below `knots[naxes]` of its dimension or is not a knot value at all
